@@ -26,7 +26,26 @@ const (
 	opPushData1   = 0x4c
 )
 
+// pushStyle selects how data pushes are encoded by push(): 0 = canonical,
+// 1 = OP_PUSHDATA1 even for short data, 2 = OP_PUSHDATA2. The generators set
+// it per script; it is plain generator state, drawn from the run's PRNG.
+var pushStyle int
+
 func push(d []byte) []byte {
+	if len(d) > 0 {
+		switch pushStyle {
+		case 1:
+			if len(d) < 256 {
+				return append([]byte{opPushData1, byte(len(d))}, d...)
+			}
+		case 2:
+			return append([]byte{0x4d, byte(len(d)), byte(len(d) >> 8)}, d...)
+		}
+	}
+	return pushCanonical(d)
+}
+
+func pushCanonical(d []byte) []byte {
 	switch {
 	case len(d) == 0:
 		return []byte{0x00}
